@@ -93,6 +93,24 @@ fn manual_zoom_list(zooms: &Vec<u32>) -> (r: Vec<u32>)
             zooms
 }
 
+// ---- the threshold the automatic branch starts from: `let min_first_zoom_size = ..;` (first statement) ----
+pub fn max_u32(a: u32, b: u32) -> (r: u32) ensures r == (if a >= b { a } else { b }) { if a >= b { a } else { b } }
+/// u32::saturating_mul (assumed std contract)
+#[verifier::external_body]
+pub fn sat_mul_u32(a: u32, b: u32) -> (r: u32)
+    ensures r as int == (if a as int * b as int <= u32::MAX as int { a as int * b as int } else { u32::MAX as int }),
+{ a.saturating_mul(b) }
+fn min_first_zoom(average_size: u32) -> (r: u32)
+    ensures
+        // four times the average item size (at least 10 bases), capped at the largest u32: never a panic, never a
+        // wrapped-around (tiny) threshold for files whose items average 2^30 bases or more
+        
+        r as int == (if 4 * (if average_size >= 10 { average_size as int } else { 10 }) <= u32::MAX as int { 4 * (if average_size >= 10 { average_size as int } else { 10 }) } else { u32::MAX as int }),
+{
+    let min_first_zoom_size = sat_mul_u32(max_u32(average_size, 10), 4);
+    min_first_zoom_size
+}
+
 } // verus!
 fn main() {}
 
